@@ -11,6 +11,8 @@ from vf import core
 from vf.ref import defs, dims, names, uexpr
 from vf.ref import c10_systems as SM
 from vf.gen import c10_overrides as OV
+from vf.gen import c10_rejected as RJ
+from vf.monitors import c10_rejected as RJM
 from .common import chunks
 
 RULE = ("one evaluation = one sub-monitor verdict on one (unit system, unit, call form) execution: inside-system (every symbol of the "
@@ -37,11 +39,19 @@ RULE = ("one evaluation = one sub-monitor verdict on one (unit system, unit, cal
         "mechanical, thermal, SI-electromagnetic and Gaussian-electromagnetic dimension families) the same verdicts against the declarations the harness "
         "itself made last (a result in a dimension with a declared unit must be in base units or in THAT unit), plus: S[dimension] hands out the declared "
         "unit, the first call after the override answers what the same form answers later, units of other dimensions do not move, and every form answers "
-        "what it answers in a system of the same base units under a never-used name in which the same units were declared before any conversion. "
+        "what it answers in a system of the same base units under a never-used name in which the same units were declared before any conversion; "
+        "in the AFTERMATH of REJECTED operations (a history of valid definitions and conversions, then operations of one class that raise and are caught - "
+        "UnitSystem(...) with swapped / wrong-dimension / unknown / unparsable base units under a never-used name, the name of a valid user system, a built-in "
+        "name, a code registry's id; S[dimension] = unit that raises; conversions and S[...] look-ups that raise) the table of registered systems must "
+        "hold the same names bound to the same objects with the same name / registry / base units immediately after each rejected call (snapshot contract), "
+        "every registered name - through its name, the object held from before, 'code', a dataset-like object, a registry whose default it is; first call "
+        "rotated over the three forms - obeys the same verdicts against its ORIGINAL definition, and every form, including uses of names that only a "
+        "rejected construction ever used, answers what it answers in a twin process that ran the same history without the rejected calls. "
         "distinct = (sub-monitor, system, unit) for table units and (sub-monitor, system class, unit family, shape of the compound) "
         "for generated units; (sub-monitor, system class, kind of re-definition, how the system was handed over, unit family) in histories; "
         "(sub-monitor, system class, kind of registry-bound system, before/after the edit, how handed over, unit family) in registry-edit histories; "
-        "(sub-monitor, system class, before / first declaration / re-declaration, dimension family, how handed over, unit family) in override histories")
+        "(sub-monitor, system class, before / first declaration / re-declaration, dimension family, how handed over, unit family) in override histories; "
+        "(sub-monitor, class of rejected operation, kind, target / by-stander / ghost name, how handed over, unit family) in rejected-operation histories")
 ASSUMPTIONS = (
     "atomic scales are read as data from the registry table by symbol (their correctness is C02's subject); compound scales, "
     "dimensions, prefixes and affine maps are computed by vf/ref (uexpr, defs, dims), never by unyt",
@@ -94,6 +104,13 @@ ASSUMPTIONS = (
     "an ignored or half-applied declaration that leaves results in base units is not outside the system by the statement; it is judged by the "
     "history-independence monitors (S[dimension] must hand out the declared unit; same answers as a never-used system with the same declarations "
     "made before any use; keys C10:override:...)",
+    "an operation that raises (a rejected UnitSystem construction, a rejected S[dimension] = unit, a conversion or look-up that raises) has not happened "
+    "as far as the set of registered unit systems is concerned: afterwards unit_system_registry holds the same names bound to the same objects with the "
+    "same base units, and every later conversion answers as in a twin process that never made the rejected call (keys C10:rejected:<class>:...; the "
+    "ordinary monitors run against the ORIGINAL definitions, keys of clean unit families carry '+after-rejected-<class>', electromagnetic families keep "
+    "their ordinary keys); memoised units_map entries a late-raising conversion leaves, and a dimension name a rejected override leaves in the system's "
+    "printed form (repr may then raise), are recorded, not judged - the statement speaks of conversions; a rejected operation that unexpectedly returns "
+    "is the constructor monitor's subject (inconsistent base units) or a note (override / conversion), and ends the twin comparison of that process",
     "edits that change the dimension of a symbol, and edits of a registry whose system has gone out of reach ('code' after the id "
     "changed and before a system is registered under the new id: KeyError) are outside the property; after an edit a code system is "
     "reached by its object / its old name, or is registered again under the new id (both live systems are judged)",
@@ -681,6 +698,9 @@ def audit_units_map(ctx, S, Sobj):
             continue
         try:
             sv, dv = uexpr.evaluate(str(v), ctx.res)
+        except (OverflowError, ZeroDivisionError):
+            # a memoised unit whose scale leaves the float64 range (t_pl**-11): the conversion that asked for it was discarded too
+            rec.count("discarded:scale-leaves-float64-range"); continue
         except Exception as e:
             rec.violation("C10:units_map:entry-not-evaluable", f"{S.name}.units_map[{k}] = {v}", {"system": S.name}); continue
         if dk != dv:
@@ -917,6 +937,10 @@ def batches(tier, seed):
     for k, sd in enumerate(seeds):
         for i in range(nov):
             b.append((f"override/{k}/{i}", ("override", (sd, k, i, perov, tier))))
+    nrj, perrj = (12, 3) if tier == "quick" else (18, 4)      # thorough: about 3x the quick size (longer histories, one seed)
+    for k, sd in enumerate(seeds[:1]):
+        for i in range(nrj):
+            b.append((f"rejected/{k}/{i}", ("rejected", (sd, k, i, perrj, tier))))
     return b
 
 
@@ -996,6 +1020,9 @@ def worker(batch, rec):
     elif kind == "override":
         seed, k, i, n, tier = payload
         override_cases(unyt, rec, core.rng(seed, "override", k, i), f"{k}_{i}", i, n, tier)
+    elif kind == "rejected":
+        seed, k, i, n, tier = payload
+        rejected_cases(unyt, rec, core.rng(seed, "rejected", k, i), f"{k}_{i}", i, n, tier)
 
 
 # ------------------------------------------------------------------ user systems
@@ -2225,6 +2252,279 @@ def lookup_cases(unyt, rec):
     rec.sample({"lookup": "every declared and every named dimension of the 7 built-in systems"})
 
 
+# ------------------------------------------------------------------ the aftermath of a REJECTED operation (vf/gen/c10_rejected.py)
+def _rj_ctor_thunk(unyt, desc, reg):
+    """arguments are built first (a failure there is the harness's), the returned thunk is the constructor call alone"""
+    args = {slot: build_arg(unyt, desc["base"][slot], desc["forms"][slot], desc["coeff"][slot], reg) for slot in SM.SLOTS}
+    pos = [args[s] for s in ("length", "mass", "time", "temperature", "angle")][:desc["npos"]]
+    kws = {KW[s]: args[s] for s in SM.SLOTS if s not in ("length", "mass", "time", "temperature", "angle")[:desc["npos"]]}
+    if reg is not None:
+        kws["registry"] = reg
+    return lambda: unyt.UnitSystem(desc["name"], *pos, **kws)
+
+
+def _rj_call(q, form, *a):
+    if form == "in_base":
+        return q.in_base(*a)
+    if form == "convert_to_base":
+        return q.convert_to_base(*a)
+    return q.units.get_base_equivalent(*a)
+
+
+def _rj_run(unyt, rec, hist, live):
+    """one history; live=False leaves the rejected operations out (the twin).  Draws nothing: both runs execute the same calls.
+    -> {"traces": [(label, answer)], "abort": reason or None}"""
+    from unyt.unit_systems import unit_system_registry
+    from unyt.unit_registry import UnitRegistry
+    from unyt import dimensions as ud
+    ctx = Ctx(unyt, rec)
+    vals = np.array(VALS[:3])
+    opclass = hist["opclass"]
+    res = {"traces": [], "abort": None}
+    systems = {}
+    for s in BUILTINS:
+        systems[f"builtin:{s}"] = {"name": s, "obj": unit_system_registry[s], "model": SM.builtin_model(s, ctx.canon), "ctx": ctx}
+    for k, desc in enumerate(hist["user"]):
+        if live:
+            rec.count("mon:rejected-setup-construct")
+        try:
+            Sobj, S = construct(unyt, desc)
+            for (dn, u, kf, _w) in desc["over"]:
+                declare(unyt, Sobj, S, dn, u, kf)
+        except Exception as e:
+            rec.violation(f"C10:construct:consistent-base-rejected:{type(e).__name__}", f"UnitSystem with consistent base units {desc['base']} raised {type(e).__name__}: {str(e)[:150]}", desc)
+            res["abort"] = "setup"; return res
+        systems[f"user:{k}"] = {"name": desc["name"], "obj": Sobj, "model": S, "ctx": ctx}
+    codereg = None
+    if hist["code"] is not None:
+        c = hist["code"]
+        codereg = UnitRegistry()
+        codereg.add("code_length", c["L"], ud.length); codereg.add("code_mass", c["M"], ud.mass); codereg.add("code_time", c["T"], ud.time)
+        codereg.add("code_temperature", c["K"], ud.temperature); codereg.add("code_velocity", c["L"] / c["T"], ud.velocity)
+        codereg.add("code_pressure", c["M"] / c["L"] / c["T"] ** 2, ud.pressure)
+        cx = Ctx(unyt, rec, codereg)
+        cname = codereg.unit_system_id if c["named"] == "id" else c["name"]
+        cdesc = {"name": cname, "origin": "code", "base": RJ.code_base(c["cur"]), "forms": {s: "str" for s in SM.SLOTS}, "coeff": {s: 1.0 for s in SM.SLOTS},
+                 "over": [], "npos": 3}
+        cdesc["forms"]["current_mks"] = "str" if c["cur"] else "none"
+        try:
+            Sobj, S = construct(unyt, cdesc, codereg)
+            declare(unyt, Sobj, S, "velocity", "code_velocity", "name")
+            declare(unyt, Sobj, S, "pressure", "code_pressure", "name")
+        except Exception as e:
+            rec.violation(f"C10:construct:consistent-base-rejected:code:{type(e).__name__}", f"code unit system over a registry with code_length/mass/time raised {type(e).__name__}: {str(e)[:150]}", cdesc)
+            res["abort"] = "setup"; return res
+        systems["code"] = {"name": cname, "obj": Sobj, "model": S, "ctx": cx}
+    # handles held from BEFORE the rejected operations
+    class DS:
+        pass
+    for ref, e in systems.items():
+        e["handles"] = [("name", e["name"], e["ctx"], e["model"]), ("object", e["obj"], e["ctx"], e["model"])]
+        if ref == "code":
+            if hist["code"]["named"] == "id":       # 'code' and dataset-like handles go through the registry's id
+                ds = DS(); ds.unit_registry = codereg
+                e["handles"].append(("dataset-like", ds, e["ctx"], e["model"]))
+                e["handles"].append(("'code'", "code", e["ctx"], e["model"]))
+        elif ref in hist["default_of"]:
+            regd = UnitRegistry(unit_system=e["name"] if len(e["name"]) % 2 else e["obj"])
+            cd = Ctx(unyt, rec, regd)
+            m = e["model"]
+            md = SM.SysModel(m.name, [m.base[s] for s in SM.SLOTS], dict(m.declared), cd.canon, origin=m.origin)
+            e["handles"] += [("registry-default", None, cd, md)] * 2
+    for (ref, u, form) in hist["warm"]:
+        _warm(unyt, systems[ref]["ctx"], systems[ref]["name"], u, vals, form)
+    # ---- the rejected operations, each between two snapshots of the table of registered systems
+    targets = {op["target"] for op in hist["ops"] if op.get("target")}
+    done = []
+    if live:
+        for op in hist["ops"]:
+            label = None
+            thunk = None
+            try:
+                if op["op"] == "ctor":
+                    desc = dict(op["desc"])
+                    if desc["name"] == "@code-id":
+                        desc["name"] = codereg.unit_system_id
+                    thunk = _rj_ctor_thunk(unyt, desc, codereg if op["registry"] == "code" else None)
+                    label = ("ctor", op["namekind"])
+                    what = f"UnitSystem({desc['name']!r}, base units {desc['base']}, registry={op['registry']}) [{op['defect']} in {op['slot']}; name is {op['namekind']}]"
+                elif op["op"] == "setitem":
+                    Sobj = systems[op["sys"]]["obj"]
+                    key = op["key"] if op["keyform"] == "name" else getattr(ud, op["key"])
+                    thunk = lambda Sobj=Sobj, key=key, v=op["value"]: Sobj.__setitem__(key, v)
+                    label = ("setitem", op["kind"])
+                    what = f"{systems[op['sys']]['name']}[{op['key']!r} as {op['keyform']}] = {op['value']!r}"
+                else:
+                    e = systems[op["sys"]]
+                    kind = op["kind"]
+                    label = ("conversion", kind)
+                    if kind == "unknown-system":
+                        q = make_q(ctx, op["unit"], np.array(vals, copy=True)); arg = op["ghost"]
+                        thunk = lambda q=q, arg=arg, f=op["form"]: _rj_call(q, f, arg)
+                    elif kind == "wrong-type-system":
+                        q = make_q(ctx, op["unit"], np.array(vals, copy=True))
+                        thunk = lambda q=q, f=op["form"]: _rj_call(q, f, 5)
+                    elif kind == "not-reducible":
+                        q = make_q(e["ctx"], op["unit"], np.array(vals, copy=True))
+                        thunk = lambda q=q, f=op["form"], n=e["name"]: _rj_call(q, f, n)
+                    elif kind == "readonly-inplace":
+                        q = make_q(e["ctx"], op["unit"], np.array(vals, copy=True)); q.flags.writeable = False
+                        thunk = lambda q=q, n=e["name"]: q.convert_to_base(n)
+                    elif kind == "foreign-code-unit":
+                        q = make_q(ctx, op["unit"], np.array(vals, copy=True))         # a quantity of the DEFAULT registry into the code system
+                        thunk = lambda q=q, f=op["form"], n=e["obj"]: _rj_call(q, f, n)
+                    else:
+                        thunk = lambda o=e["obj"], k=op["key"]: o[k]
+                    what = f"{kind}: ({op['unit']}).{op['form']}({op.get('ghost', e['name'])!r})" if not kind.startswith("getitem") else f"{e['name']}[{op['key']!r}]"
+            except Exception as ex:
+                rec.note(f"harness:rejected-op-not-buildable:{op['op']}:{type(ex).__name__}")
+                continue
+            repr_ok = None
+            if op["op"] == "setitem":
+                try:
+                    repr(systems[op["sys"]]["obj"]); repr_ok = True
+                except Exception:
+                    repr_ok = False
+            before = RJM.snapshot(unit_system_registry)
+            try:
+                thunk()
+                exc = None
+            except Exception as ex:
+                exc = type(ex).__name__
+            after = RJM.snapshot(unit_system_registry)
+            if exc is None:
+                if op["op"] == "ctor" and op["defect"] in ("swap", "wrong"):
+                    rec.count("mon:ctor-reject")
+                    rec.violation(f"C10:construct:inconsistent-base-accepted:{op['slot']}:{op['defect']}:after-use:{op['namekind']}",
+                                  f"{what} was constructed although its base units are inconsistent", op)
+                    res["abort"] = "accepted"; return res
+                rec.note(f"rejected-op-returned:{label[0]}:{label[1]}")
+                if op["op"] != "conv":
+                    res["abort"] = "accepted"; return res      # the state has legitimately changed: no twin for this batch any more
+                continue
+            if op["op"] == "ctor":
+                rec.count("mon:ctor-reject")
+                rec.ok(("ctor-reject-after-use", op["namekind"], op["defect"], op["registry"]))
+                if op["defect"] in ("swap", "wrong") and exc != "IllDefinedUnitSystem":
+                    rec.note(f"ctor-rejected-with:{exc}")
+                rec.count(f"mon:rejected-ctor-name:{op['namekind']}")
+            rec.count(f"mon:rejected-op:{label[0]}")
+            rec.note(f"rejected-op:{label[0]}:{label[1]}:{exc}")
+            done.append(what + f" -> {exc}")
+            # -- snapshot contract
+            rec.count("mon:rejected-registry-snapshot")
+            tname = systems[op["target"]]["name"] if op.get("target") else None
+            bad, memo = RJM.compare(before, after)
+            for (kind, name, detail) in bad:
+                whose = "target" if name == tname else ("builtin" if name in BUILTINS else ("ghost" if kind == "added" else "bystander"))
+                rec.violation(f"C10:rejected:{label[0]}:{label[1]}:registry-{kind}:{whose}",
+                              f"{what} raised {exc}, and afterwards unit_system_registry[{name!r}] is {kind} ({detail}): a rejected operation must leave the registered systems as they were",
+                              {"operation": op, "raised": exc, "name": name, "change": kind, "detail": detail})
+            if not bad:
+                rec.ok(("rejected-registry",) + label + (op.get("namekind", op.get("sys", "").split(":")[0]), exc))
+            for (kind, name, detail) in memo:
+                rec.note(f"rejected-op-{kind}:{label[0]}:{label[1]}")
+            if repr_ok:
+                try:
+                    repr(systems[op["sys"]]["obj"])
+                except Exception as ex:
+                    rec.note(f"rejected-override-leaves-repr-raising:{label[1]}:{type(ex).__name__}")
+    # ---- the aftermath: ordinary use of every registered system name, through every handle
+    for ref, e in systems.items():
+        role = "target" if ref in targets else "bystander"
+        scls = e["model"].cls()
+        for (u, hd, fd) in hist["probes"].get(ref, []):
+            how, arg, cx, model = e["handles"][hd % len(e["handles"])]
+            try:
+                du = uexpr.evaluate(u, cx.res)[1]
+            except Exception:
+                du = None
+            codeu = "code_" in u
+            fam = "code-unit" if codeu else family(u, du)
+            clean = not (fam.startswith("em-") or fam in ("compound-current", "compound-gauss", "current-atom", "gauss-atom"))
+            first_form = (None, "in_base", "convert_to_base", "get_base_equivalent")[fd]
+            lab = (ref, how, u, role, scls, fam)
+            if first_form is not None:
+                if live:
+                    rec.count("mon:rejected-first-call")
+                res["traces"].append((lab + ("first:" + first_form,), _plain_one(cx, arg, u, vals, first_form)))
+            tr = {}
+            out = judge(cx, model, arg, u, vals, cellkey=(scls, "after-rejected", opclass, role, how, fam), aliases=False, scls=scls,
+                        keytag=f"+after-rejected-{opclass}" if clean else "", trace=tr,
+                        case_extra={"rejected_operations_before": done, "system_given_as": how, "role": role})
+            for form in ("in_base", "twice", "gbe", "inplace"):
+                if form in tr:
+                    res["traces"].append((lab + (form,), tr[form]))
+            if live and out is not None:
+                rec.count("mon:rejected-judged")
+                if role == "target":
+                    rec.count("mon:rejected-judged-target")
+                if how == "registry-default":
+                    rec.count("mon:rejected-default-handle")
+    # names that only a rejected call ever used
+    for g in hist["ghosts"]:
+        res["traces"].append((("ghost", "name", g, "ghost", "none", "-", "registered"), (str(g in unit_system_registry), None)))
+        for u in hist["ghost_units"]:
+            for form in RJ.ROUTES:
+                res["traces"].append((("ghost", "name", u, "ghost", "none", "-", form), _plain_one(ctx, g, u, vals, form)))
+    for ref, e in systems.items():
+        audit_units_map(e["ctx"], e["model"], e["obj"])
+    res["done"] = done
+    return res
+
+
+def rejected_cases(unyt, rec, r, tag, idx, nhist, tier):
+    import sys
+    me = sys.modules[__name__]
+    hists = [RJ.gen_history(r, me, f"{tag}_{h}", idx * nhist + h, tier, batch=idx) for h in range(nhist)]
+    # the twin process: forked before this process has done anything; the same histories without the rejected operations
+    twin = RJM.Twin(lambda hs: [_rj_run(unyt, core.Rec(), h, False) for h in hs], hists, limit=1300.0)
+    real = []
+    for h in hists:
+        out = _rj_run(unyt, rec, h, True)
+        real.append(out)
+        if out["abort"]:
+            break
+    try:
+        tw = twin.result()
+    except RJM.ControlFailed as e:
+        rec.count("control:rejected-twin-failed")
+        rec.note("control:rejected-twin-failed:" + str(e).split(":")[0])
+        return
+    for h, a, b in zip(hists, real, tw):
+        if a["abort"] or b["abort"]:
+            rec.note("rejected-history-without-twin:" + str(a["abort"] or b["abort"]))
+            break
+        opclass = h["opclass"]
+        if [l for l, _x in a["traces"]] != [l for l, _x in b["traces"]]:
+            rec.note("harness:rejected-twin-ran-other-calls")
+            rec.count("control:rejected-twin-failed")
+            continue
+        for (lab, x), (_l, y) in zip(a["traces"], b["traces"]):
+            ref, how, u, role, scls, fam, form = lab
+            rec.count("mon:rejected-twin")
+            if role == "ghost":
+                rec.count("mon:rejected-twin-ghost")
+            (e1, v1), (e2, v2) = x, y
+            what = None
+            if e1 != e2:
+                what = "outcome" if ((v1 is None) != (v2 is None) or names_exc(e1) or names_exc(e2)) else "unit"
+            elif v1 is not None and v2 is not None and not close(np.asarray(v1), np.asarray(v2), 1e-13):
+                what = "value"
+            if what:
+                rec.violation(f"C10:rejected:{opclass}:differs-from-twin-without-the-rejected-calls:{form.split(':')[0]}:{what}:{role}:{scls}",
+                              f"after the rejected operations {a.get('done')}: ({u}) {form} with system {ref} given as {how} -> {v1} {e1}; in a twin process that ran the same history "
+                              f"without the rejected calls -> {v2} {e2}", {"history": h, "unit": u, "form": form, "system": ref, "handle": how, "got": [e1, v1], "twin": [e2, v2]})
+            else:
+                rec.ok(("rejected-twin", opclass, role, how, form, scls, fam))
+    rec.sample({"rejected_history": {"opclass": hists[0]["opclass"], "ops": hists[0]["ops"], "user": [u["base"] for u in hists[0]["user"]], "code": hists[0]["code"]}})
+
+
+def names_exc(s):
+    """is this answer string the name of an exception class rather than a unit expression?"""
+    return isinstance(s, str) and s.isidentifier() and (s.endswith("Error") or s.endswith("Exception") or s in ("UnitsNotReducible", "MissingMKSCurrent", "IllDefinedUnitSystem"))
+
+
 # ------------------------------------------------------------------ evidence
 DECIDING = ("mon:in_base-calls", "mon:dim", "mon:inside", "mon:value", "mon:back", "mon:idem", "mon:gbe", "mon:inplace", "mon:alias",
             "mon:history", "mon:units_map", "mon:usable", "mon:user-construct", "mon:getitem", "mon:ctor-reject", "mon:ctor-accept",
@@ -2238,7 +2538,11 @@ DECIDING = ("mon:in_base-calls", "mon:dim", "mon:inside", "mon:value", "mon:back
             "mon:override-family:em-gauss", "mon:override-probe", "mon:override-probe:mechanical", "mon:override-probe:thermal", "mon:override-probe:em-si",
             "mon:override-probe:em-gauss", "mon:override-probe-pairing-atom-first-declared", "mon:override-probe-pairing-atom-redeclared",
             "mon:override-bystander", "mon:override-default", "mon:override-first-call", "mon:override-first-call:in_base",
-            "mon:override-first-call:convert_to_base", "mon:override-first-call:get_base_equivalent", "mon:override-getitem", "mon:override-twin")
+            "mon:override-first-call:convert_to_base", "mon:override-first-call:get_base_equivalent", "mon:override-getitem", "mon:override-twin",
+            "mon:rejected-setup-construct", "mon:rejected-op:ctor", "mon:rejected-op:setitem", "mon:rejected-op:conversion",
+            "mon:rejected-ctor-name:fresh", "mon:rejected-ctor-name:existing-user", "mon:rejected-ctor-name:builtin", "mon:rejected-ctor-name:code",
+            "mon:rejected-registry-snapshot", "mon:rejected-first-call", "mon:rejected-judged", "mon:rejected-judged-target",
+            "mon:rejected-default-handle", "mon:rejected-twin", "mon:rejected-twin-ghost")
 
 
 def extra(tier, seed, results):
